@@ -26,7 +26,8 @@ RULE = ("channels H = U diag(s) V^H with prescribed singular values (kappa "
         "settings.  icontract postconditions on every encode() check shape and "
         "energy per channel use; the driver checks decode(H encode(x)) = x and "
         "the filter equations.  Signature = (scheme, Nr, Nt, sv-class, data "
-        "kind, round); non-trivial = more than one antenna or channel use.")
+        "kind, round); non-trivial = more than one antenna or channel use."
+        "The received block must be unchanged by decode. ")
 ASSUMPTIONS = ["round trips use noise variance 0/None (with noise the BLAST "
                "family switches to the biased MMSE filter by design)",
                "tolerance 256 eps n kappa(H) ||x||"]
@@ -193,6 +194,10 @@ def case_roundtrip(ctx, rng, idx):
                                 detail={**tag, "data": x, "how": how})
             if not okc:
                 continue
+            # the received block belongs to the caller (decoded again by another
+            # receiver, stored, compared): decoding must leave it as it was
+            ctx.ev("args-not-mutated", np.array_equal(rx, rxb), cls=scheme + ".decode",
+                   detail={**tag, "how": how})
             dec = np.asarray(dec)
             ctx.ev("round-trip", dec.shape == (n,), cls=scheme + ":shape",
                    detail={**tag, "got": dec.shape, "n": n})
